@@ -24,6 +24,9 @@ claimed = {
  "C16": ("who-may-write + dominance on SSA with inter-procedural path taint (fsatomic)",
          "Structural necessary conditions: no in-place write/truncate of a path derived from the input VCL name anywhere in the module; the only mutation is rename(tmp→path) dominated by the success edges of all writes to tmp which copy the formatter's result; the formatter's possibly-nil result is tested before use. Decides the shape of the write path on all paths, not kernel behaviour.",
          "trusts go/ssa; assumes the input file is named by resolver.VCL.Name and same-directory rename is atomic", "DESIGN.md §4 C16"),
+ "C19": ("encoder/decoder field mirror by *types.Var census, dispatch exhaustiveness, frame-constant agreement, end-of-input loop exit analysis on SSA (steady-state FIN/UNKNOWN branches, path-sensitive failing-dispatcher summary), length-guard dominance for input-sized byte slices, narrowing rule",
+         "Structural necessary conditions: every semantic field of every node kind is read by an encoder and written by a decoder; both dispatch tables are exhaustive and agree on frame types; every decoder frame loop leaves at end of input; constant indices into input-sized frames are length-guarded; optional children are nil-guarded. Decides what travels and that decoding has an exit on every byte string's end; not value equality.",
+         "trusts go/ssa; exemption table of presentational fields and two reviewed non-frame loops in c19.go", "DESIGN.md §4 C19"),
 }
 
 na_reason = {
